@@ -42,9 +42,8 @@ def addition_type_works(ty, resolve, depth=0):
         return True
     if k == 'seqof':
         return ty.kind != 'ref' and t.lo != t.hi and t.elem.kind in ('bool', 'int', 'real', 'null')
-    if k == 'choice':
-        return ty.kind != 'ref' and all(a.kind in ('bool', 'int', 'real', 'null') for _, a in t.alts) and \
-            all(canon(n) == n for n, _ in t.alts)
+    # CHOICE: the generated get_choice_<name>_length helper takes a struct that only exists when the SEQUENCE is a
+    # type assignment itself, and is keyed by the member name alone (two CHOICE additions called alike share one helper)
     return False
 
 
